@@ -45,6 +45,9 @@ def cases(seed, tier):
             for b in bad:
                 if b not in T.all_paths(t):
                     steps.append({'op': 'read', 'file': 0, 'tree': rng.choice([True, False, None]), 'emdpath': '/'.join([rn] + b), 'expect_missing': True})
+        # a path that exists below the root, spelled WITHOUT the root's name: not a path of the file
+        for p in [q for q in paths[:6] if q and q[0] != rn and q[0] != rn + '2'][:3]:
+            steps.append({'op': 'read', 'file': 0, 'tree': rng.choice([True, False, None]), 'emdpath': rng.choice(['', '/']) + '/'.join(p), 'expect_missing': True})
         steps.append({'op': 'read', 'file': 0, 'tree': True, 'emdpath': 'noroot', 'expect_missing': True})
         if not two:
             steps.append({'op': 'read', 'file': 0, 'tree': rng.choice([True, False, None])})
